@@ -160,40 +160,17 @@ func (p *Prog) ModuleFunctions() []*ssa.Function {
 
 func (p *Prog) moduleFunctions() []*ssa.Function {
 	var fns []*ssa.Function
-	seen := map[*ssa.Function]bool{}
-	var add func(f *ssa.Function)
-	add = func(f *ssa.Function) {
-		if f == nil || seen[f] {
-			return
-		}
-		seen[f] = true
-		if f.Blocks != nil {
-			fns = append(fns, f)
-		}
-		for _, a := range f.AnonFuncs {
-			add(a)
-		}
-	}
-	for path, sp := range p.SSAPkgs {
-		if !InModule(path) {
+	for fn := range p.AllFunctions() {
+		if fn.Blocks == nil {
 			continue
 		}
-		for _, m := range sp.Members {
-			switch m := m.(type) {
-			case *ssa.Function:
-				add(m)
-			case *ssa.Type:
-				for _, t := range []types.Type{m.Type(), types.NewPointer(m.Type())} {
-					ms := p.SSA.MethodSets.MethodSet(t)
-					for i := 0; i < ms.Len(); i++ {
-						f := p.SSA.MethodValue(ms.At(i))
-						if f != nil && f.Pkg == sp && f.Synthetic == "" {
-							add(f)
-						}
-					}
-				}
-			}
+		if fn.Synthetic != "" && !strings.HasPrefix(fn.Synthetic, "instance of") {
+			continue // wrappers, thunks, bound methods, package initialisers
 		}
+		if !InModule(FnPkgPath(fn)) {
+			continue
+		}
+		fns = append(fns, fn)
 	}
 	sort.Slice(fns, func(i, j int) bool {
 		if fns[i].Pos() != fns[j].Pos() {
@@ -202,6 +179,27 @@ func (p *Prog) moduleFunctions() []*ssa.Function {
 		return fns[i].String() < fns[j].String()
 	})
 	return fns
+}
+
+// FnPkgPath returns the package path of fn (closures: of the enclosing
+// function; instantiations of generic functions: of their origin).
+func FnPkgPath(fn *ssa.Function) string {
+	for fn != nil && fn.Parent() != nil {
+		fn = fn.Parent()
+	}
+	if fn == nil {
+		return ""
+	}
+	if fn.Pkg != nil {
+		return fn.Pkg.Pkg.Path()
+	}
+	if o := fn.Origin(); o != nil && o.Pkg != nil {
+		return o.Pkg.Pkg.Path()
+	}
+	if fn.Object() != nil && fn.Object().Pkg() != nil {
+		return fn.Object().Pkg().Path()
+	}
+	return ""
 }
 
 // Pos renders a position relative to the repository root.
